@@ -11,6 +11,27 @@ BASELINE_OFF = ("cd /repo && /venv/bin/python -m pytest -ra -q -p no:cacheprovid
 
 # property id -> (engine/spec modules, technique, level text, level note, design ref)
 CHECKS = {
+    "C01": (["LexerOps.tla", "Lexer.tla", "LexerMC.tla", "Parser.tla", "ParserTable.tla", "ParserMC.tla"],
+            "TLA+ scanner transducer and parser pushdown automaton (lazy input) model-checked by TLC; every terminal state, "
+            "one-token edit and lexeme variant replayed on parse_script under a watchdog",
+            "TLC explores the scanner over four character alphabets (all strings <= 4, thorough 5) and the parser automaton over "
+            "the full ~105-class token alphabet (all sequences <= 2, thorough 3) and four construct alphabets (<= 4, thorough 5), "
+            "checking totality/progress/error-position invariants; each terminal state (>300k texts quick), every one-token "
+            "deletion/insertion/substitution and lexeme variant of sampled accepted programs and nestings to 40 are parsed twice "
+            "by the real parser: only a node or a CklSyntaxError with message and position may come out, within 5 s, both times equal.",
+            "Trusted: TLC; the transcription tools/parser_table.py (its predictions are compared with the code as drift: 0 "
+            "disagreements on 132k inputs); rendering of token classes to lexemes. Data-dependent parser branches are not modelled.",
+            "DESIGN.md 4 C01"),
+    "C20": (["LexerOps.tla", "Lexer.tla", "LexerMC.tla", "Parser.tla", "ParserTable.tla"],
+            "TLC-checked scanner line invariant (LineIsStartLine vs reference LineOf) + replay of exported token lines; parser "
+            "automaton names the offending token of syntax faults; planted runtime/module faults under random multi-line layouts",
+            "TLC proves on the scanner mirror that every token carries the line of its first character for every text of the "
+            "explored alphabets (with the pinned stamping rule switched on it produces the counterexample); the exported per-token "
+            "lines are compared with the real Lexer for ~150k texts; 5k syntax-fault renderings (token named by the parser model), "
+            "600 runtime-fault renderings incl. stack-trace frames and 50 module faults are checked for file name and line.",
+            "Trusted: TLC, LexerOps.LineOf as the reading of 'line on which the token begins', the fault templates' marked tokens; "
+            "for operator faults/calls the operator's or the construct's first line is accepted. Columns are not compared.",
+            "DESIGN.md 4 C20"),
     "C15": (["SeqOps.tla", "Seq.tla", "Seq_Trace.tla"],
             "TLA+ list-object state machine (TLC exhaustive) + TLC-generated case replay + TLC trace validation of recorded calls",
             "TLC checks the index/slice/find/insert/delete laws on every list of length <= 3 (thorough 6) over 3 symbols and every "
